@@ -10,3 +10,8 @@ package distiller
 //@   ensures [C13] #no-url-no-result-url implies(result1 == nil && (opts == nil || old(opts.OriginalURL) == nil), result0 != nil && result0.URL == "")
 //@   ensures [C13] #pagination-empty-when-skipped implies(result1 == nil && (opts == nil || old(opts.SkipPagination) || old(opts.OriginalURL) == nil), result0.PaginationInfo.NextPage == "" && result0.PaginationInfo.PrevPage == "")
 //@   ensures [C01] #well-formed-result implies(result1 == nil, result0 != nil && result0.Node != nil && result0.Node.Data == "div") && implies(result1 != nil, result0 == nil)
+
+// C11: the reader entry point distils the parse of the WHOLE input it is given (parsedDoc: the tree html.Parse
+// builds from a reader, /verif/specs/dom.spec) with the caller's options.
+//@ func ApplyForReader(r, opts)
+//@   ensures [C11] #the-whole-input-is-parsed implies(result1 == nil, doc == parsedDoc(r))
